@@ -50,6 +50,7 @@ impl Gen {
             1 => ("fold", 0),
             2 => ("nth", 0),
             3 => ("nth", self.rng.gen_range(0..left + 3)),
+            4 => (["any", "all", "position", "find"][self.rng.gen_range(0..4)], self.rng.gen_range(0..left + 2)),
             _ => ("none", 0),
         };
         op["fin"] = json!(f);
@@ -85,6 +86,16 @@ impl Gen {
                 c = self.rng.gen_range(0..self.classes);
             }
             return json!({"name": "insert", "k": {"kt": ARG + 1, "c": c, "r": 0}, "v": self.v(1)});
+        }
+        if cap > 16 && len > 180 && self.rng.gen_bool(0.03) {
+            // a very long request (J = 200): most of it present, the rest absent, all different
+            let mut ks: Vec<Cls> = present.iter().rev().take(185).copied().collect();
+            let mut extra: Cls = 5000;
+            while ks.len() < 200 {
+                ks.push(extra);
+                extra += 1;
+            }
+            return json!({"name": "disjoint", "ks": ks, "w": self.w(), "unchecked": self.rng.gen_bool(0.5)});
         }
         if cap > 16 && len > 8 && self.rng.gen_bool(0.3) {
             // large containers: requests that reach the highest slots (indices beyond one byte),
